@@ -187,8 +187,8 @@ theorem leasedOf_setAt_none (b : Nat) (ls : List Lease) (i : Nat) (a : Nat) (c :
       simp only [List.getElem?_cons_zero, Option.some.injEq] at h
       subst h
       by_cases hab : a = b
-      · simp [setAt, leasedOf, List.filter_cons, hab]
-      · simp [setAt, leasedOf, List.filter_cons, hab]
+      · simp [setAt, leasedOf, hab]
+      · simp [setAt, leasedOf, hab]
     | succ n =>
       simp only [List.getElem?_cons_succ] at h
       have := ih n h
@@ -287,7 +287,7 @@ theorem leasedIds_setAt_other (b : Nat) (ls : List Lease) (i : Nat) (a : Nat) (c
     | zero =>
       simp only [List.getElem?_cons_zero, Option.some.injEq] at h
       subst h
-      simp [setAt, leasedIds, List.filter_cons, hne]
+      simp [setAt, leasedIds, hne]
     | succ n =>
       simp only [List.getElem?_cons_succ] at h
       have := ih n h
@@ -309,7 +309,7 @@ theorem leasedIds_setAt_same (ls : List Lease) (i : Nat) (a : Nat) (c : Conn)
     | zero =>
       simp only [List.getElem?_cons_zero, Option.some.injEq] at h
       subst h
-      exact ⟨[], leasedIds a ls, by simp [leasedIds, List.filter_cons], by simp [setAt, leasedIds, List.filter_cons]⟩
+      exact ⟨[], leasedIds a ls, by simp [leasedIds], by simp [setAt, leasedIds]⟩
     | succ n =>
       simp only [List.getElem?_cons_succ] at h
       obtain ⟨l1, l2, h1, h2⟩ := ih n h
